@@ -8,7 +8,7 @@ VARIABLES tid, l, now, tk, bad
 vars == <<tid, l, now, tk, bad>>
 \* tk[a][i] = [on, last, wait, due, exc]: generator alive, time of its last tick, a step in progress with its
 \* expected resume date (`due`) or the expectation that it raises IntervalExceeded (`exc`)
-NoTk == [on |-> FALSE, last |-> 0, wait |-> FALSE, due |-> 0, exc |-> FALSE]
+NoTk == [on |-> FALSE, last |-> 0, wait |-> FALSE, due |-> 0, exc |-> FALSE, neg |-> FALSE]
 Init == /\ tid \in 1..N /\ l = 1 /\ bad = "" /\ now = 0 /\ tk = [a \in Ids |-> [i \in Slots |-> NoTk]]
 Fail(c) == bad' = c /\ UNCHANGED tk
 Step ==
@@ -25,14 +25,20 @@ Step ==
                           ELSE IF e.kind = "interval" THEN last + e.p ELSE t + e.p
                    exc == IF "rank" \in DOMAIN e THEN F(e, "late", FALSE)
                           ELSE e.kind = "interval" /\ last + e.p < t IN
-               tk' = [tk EXCEPT ![a][i] = [on |-> TRUE, last |-> last, wait |-> TRUE, due |-> due, exc |-> exc]]
+               tk' = [tk EXCEPT ![a][i] = [on |-> TRUE, last |-> last, wait |-> TRUE, due |-> due, exc |-> exc,
+                                            neg |-> F(e, "neg", FALSE)]]
                /\ UNCHANGED bad
           [] e.e = "r" ->
                IF ~st.wait THEN Fail("C14.tick_without_step")
+               ELSE IF st.neg THEN Fail("C14.negative_period_not_rejected")
                ELSE IF st.exc THEN Fail("C14.exceeded_iff")            \* the body took longer than the period
                ELSE IF t # st.due THEN Fail("C14.grid")
                ELSE IF e.v # t THEN Fail("C14.value")                  \* yields the current time
                ELSE tk' = [tk EXCEPT ![a][i] = [st EXCEPT !.wait = FALSE, !.last = t]] /\ UNCHANGED bad
+          [] e.e = "x" /\ st.neg ->
+               \* negative periods are rejected
+               IF e.exc[1] = "other" /\ e.exc[2] = "ValueError" THEN tk' = [tk EXCEPT ![a][i] = NoTk] /\ UNCHANGED bad
+               ELSE Fail("C14.negative_period_not_rejected")
           [] e.e = "x" ->
                IF e.exc[1] # "exceeded" THEN Fail("C14.unexpected_exception")
                ELSE IF ~st.exc THEN Fail("C14.exceeded_iff")
